@@ -67,6 +67,9 @@ class Runner(object):
         if op == 'remove':
             B.op_remove(c, A[args[0]])
             return []
+        if op == 'remove_bulk':
+            B.op_remove_bulk(c, [A[a] for a in args])
+            return []
         if op == 'load':
             return [B.name_of(B.op_load(c, A[args[0]]), ALLBYTES)]
         if op == 'load_bulk':
@@ -79,7 +82,7 @@ class Runner(object):
         return {n: B.name_of(d, ALLBYTES) for n, d in zip(NAMES, B.project(self.b, self.universe))}
 
 
-OPMAP = {'Store': 'store', 'StoreBulk': 'store_bulk', 'Remove': 'remove', 'Load': 'load', 'LoadBulk': 'load_bulk',
+OPMAP = {'Store': 'store', 'StoreBulk': 'store_bulk', 'Remove': 'remove', 'RemoveBulk': 'remove_bulk', 'Load': 'load', 'LoadBulk': 'load_bulk',
          'IsCached': 'is_cached'}
 
 
@@ -90,7 +93,7 @@ def beh_ops(beh):
         op = OPMAP[name]
         if op == 'store_bulk':
             a = [list(p) for p in args[0]]
-        elif op == 'load_bulk':
+        elif op in ('load_bulk', 'remove_bulk'):
             a = list(args[0])
         else:
             a = list(args)
@@ -105,7 +108,7 @@ def replay_behaviour(ctx, backend, family, ops):
         for i, (op, args, st) in enumerate(ops):
             if op == 'store_bulk' and not r.bulk_ok([a for a, _ in args]):
                 return 'skip'
-            if op == 'load_bulk' and not r.bulk_ok(args):
+            if op in ('load_bulk', 'remove_bulk') and not r.bulk_ok(args):
                 return 'skip'
         model = {n: 'none' for n in NAMES}
         for i, (op, args, st) in enumerate(ops):
@@ -121,6 +124,9 @@ def replay_behaviour(ctx, backend, family, ops):
                     model[a] = b
             elif op == 'remove':
                 model[args[0]] = 'none'
+            elif op == 'remove_bulk':
+                for a in args:
+                    model[a] = 'none'
             exp = []
             if op == 'load':
                 exp = [model[args[0]]]
@@ -164,8 +170,11 @@ def random_history(rng, backend, family, nops):
                 g = rng.choice(glist)
                 n = rng.randint(1, min(4, len(g) + 1))
                 op, args = 'store_bulk', [[rng.choice(g), rng.choice(byts)] for _ in range(n)]
-            elif k < 0.55:
+            elif k < 0.49:
                 op, args = 'remove', [rng.choice(names)]
+            elif k < 0.55:
+                g = rng.choice(glist)
+                op, args = 'remove_bulk', rng.sample(g, rng.randint(1, min(3, len(g))))
             elif k < 0.70:
                 op, args = 'load', [rng.choice(names)]
             elif k < 0.88:
@@ -194,6 +203,9 @@ def expected_obs(events):
                 model[a] = b
         elif e['op'] == 'remove':
             model[e['args'][0]] = 'none'
+        elif e['op'] == 'remove_bulk':
+            for a in e['args']:
+                model[a] = 'none'
     return model
 
 
